@@ -1,0 +1,29 @@
+//go:build verif
+
+// Contracts for the raft state machine glue (machine-checked by /verif's VC
+// generator; comment-only, adds no code).
+package main
+
+// Converting the replies of one entry into an output batch. The batch is
+// written under the id of the entry; a LevelDB write error panics (assumed
+// absent: I/O errors are outside the properties).
+//@ func sendMessages
+//@   requires reply != nil && replyOK(reply)
+//@   modifies outputstream.OutputStream.lastseen[o], outputstream.OutputStream.batch[o], maptype(map[uint64]*outputstream.messageBatch)
+
+// Applying one committed entry. wf* is the representation invariant of
+// internal/ircserver; it holds between entries.
+//@ func FSM.applyRobustMessage
+//@   requires state: fsm != nil && msg != nil && wfMid(i) && wfAuth(i) && wfLogin(i) && wfAlive(i)
+//@   requires gate-session: (msg.Type == robust.IRCFromClient || msg.Type == robust.DeleteSession) ==> msg.Session.Reply == 0
+//@   requires gate-create: msg.Type == robust.CreateSession ==> len(msg.Data) >= 8 && msg.Id.Reply == 0 && (forall x robust.Id :: x in i.sessions ==> x.Id < msg.Id.Id)
+//@   ensures base: wfBase(i)
+//@   ensures sessions: wfSessions(i)
+//@   ensures nicks: wfNicks(i)
+//@   ensures channels: wfChannels(i)
+//@   ensures member: wfMember(i)
+//@   ensures owner: wfOwner(i)
+//@   ensures auth: wfAuth(i)
+//@   ensures login: wfLogin(i)
+//@   ensures alive: wfAlive(i)
+//@   modifies *, !robust.Message
